@@ -192,8 +192,17 @@ Definition edge_local (w : world FN) : bool :=
    cost from the source over the cost table (None = unreachable), a certificate checked by [check_potential];
    [optimal]: the harness expects the underlying search to be optimal (Dijkstra, or A-star with a consistent
    estimate); [aa]: number of routes the implementation returned for the same query under AcceptAll *)
-Definition check_case (w : world FN) (q : kq FN) (simq : simfn Q) (pi : list (option float)) (optimal : bool)
-           (o : outcome FN) (aa : nat) : option string :=
+(* [fold]: the hop states are re-computed by folding the traversal (off for underlying searches that may re-open a
+   vertex: weighted A-star, C03's K_reopen);  [mfuel]: Some f = when the outcome is `terminated` under a finite
+   TerminationModel, re-run the two underlying searches of the model with fuel f: the single-via loop itself never
+   consults the termination model, so if both searches finish under the limit the answer must be Ok *)
+Definition term_unlimited (t : term) : bool := match t with TUnlimited => true | _ => false end.
+Definition underlying_ok (f : nat) (w : world FN) (q : kq FN) (s t : nat) : bool :=
+  is_ok (search FN f w q Forward s t)
+  && match kq_alg FN q with KSingleVia => is_ok (search FN f w q Reverse t s) | KYens => true end.
+
+Definition check_case_gen (fold : bool) (mfuel : option nat) (w : world FN) (q : kq FN) (simq : simfn Q)
+           (pi : list (option float)) (optimal : bool) (o : outcome FN) (aa : nat) : option string :=
   let wq := worldQ w in
   let g := graph_of FN w in
   let costq := w_cost QN wq in
@@ -212,14 +221,23 @@ Definition check_case (w : world FN) (q : kq FN) (simq : simfn Q) (pi : list (op
                | None => if String.eqb st "Ok" then Some "route to an unreachable destination" else None
                | Some dt =>
                    if negb (edge_local w) && negb (String.eqb st "Ok") then None   (* frontier/turn tables: C04/C05 *)
-                   else if negb (String.eqb st "Ok") then Some "error on an answerable query"
+                   else if negb (String.eqb st "Ok") then
+                     match mfuel with
+                     | Some f =>
+                         if String.eqb st "terminated" && negb (term_unlimited (w_term FN w))
+                         then (if underlying_ok f w q s t
+                               then Some "terminated although both underlying searches finish under the limit"
+                               else None)
+                         else Some "error on an answerable query"
+                     | None => Some "error on an answerable query"
+                     end
                    else
                      let rs := map (route_edges FN) (o_routes FN o) in
                      match check_routes g s t k rs with
                      | Some why => Some why
                      | None =>
                          if negb (check_dissimilar simq (fun e => nth e costq 1%Q) rs) then Some "too similar"
-                         else if negb (forallb (states_ok wq) (o_routes FN o)) then Some "state"
+                         else if fold && negb (forallb (states_ok wq) (o_routes FN o)) then Some "state"
                          else if optimal && edge_local w
                                  && negb (match rs with r0 :: _ => Qeq_bool (route_sum costq r0) dt | [] => false end)
                               then Some "first route is not least-cost"
@@ -230,6 +248,16 @@ Definition check_case (w : world FN) (q : kq FN) (simq : simfn Q) (pi : list (op
       | _ => if String.eqb st "err:build" then None else Some "bad k: build error expected"
       end
   end.
+
+Definition check_case := check_case_gen true None.
+
+(* the line of the ksp stream: the fold flag and the model fuel are chosen by the harness *)
+Definition line_SG (fold : bool) (fuel : nat) (id : Z) (w : world FN) (q : kq FN) (simq : simfn Q)
+           (pi : list (option float)) (optimal : bool) (o : outcome FN) (aa : nat) (detail : nat) : string :=
+  line "S" id (match check_case_gen fold (Some fuel) w q simq pi optimal o aa with
+               | None => show_outcome FN o detail ++ " aa=" ++ show_nat aa
+               | Some why => "REJECT(" ++ why ++ ") " ++ show_outcome FN o 0
+               end).
 
 Definition line_S (id : Z) (w : world FN) (q : kq FN) (simq : simfn Q) (pi : list (option float)) (optimal : bool)
            (o : outcome FN) (aa : nat) (detail : nat) : string :=
@@ -308,6 +336,30 @@ Definition line_SE (id : Z) (w : world FN) (q : kq FN) (simq : simfn Q) (pi : li
                | None => show_outcome FN o detail ++ " aa=" ++ show_nat aa
                | Some why => "REJECT(" ++ why ++ ") " ++ show_outcome FN o 0
                end).
+
+(* ---- stream `sim`: RouteSimilarityFunction::test_similarity on arbitrary pairs of edge-id sequences ---- *)
+Definition show_sim (r : res bool) : string :=
+  match r with Ok b => "Ok " ++ show_bool b | Err _ => "Err" | Panic _ => "Panic" | OutOfFuel => "Hang" end.
+Definition line_simM (id : Z) (w : world FN) (f : simfn float) (a b : list nat) : string :=
+  line "M" id (show_sim (test_similarity FN cos_ge_F f (edge_dist FN w) a b)).
+(* the exact decision: similar when the rank exceeds the threshold by more than the rounding slack, not similar when
+   it is below it by more than the slack (or undefined: 0/0); inside the band the implementation's answer stands *)
+Definition sim_verdict (fq : simfn Q) (dist : nat -> res Q) (a b : list nat) (impl : string) : string :=
+  let decide (p : res (Q * Q * Q)) (thr : Q) :=
+    match p with
+    | Ok (n, da, db) =>
+        if cos_gt_Q n da db thr then "Ok T"
+        else if negb (cos_ge_Q n da db (thr * (1 - (1 # (2 ^ 40))))%Q) then "Ok F"
+        else impl
+    | _ => "Err"
+    end in
+  match fq with
+  | SAcceptAll => "Ok F"
+  | SEdgeIdCosine thr => decide (cos_parts QN (fun _ => Ok 1%Q) a b) thr
+  | SDistanceCosine thr => decide (cos_parts QN dist a b) thr
+  end.
+Definition line_simS (id : Z) (w : world FN) (fq : simfn Q) (a b : list nat) (impl : string) : string :=
+  line "S" id (sim_verdict fq (edge_dist QN (worldQ w)) a b impl).
 
 Definition line_MF := line_M FN cos_ge_F.
 Definition line_MEF := line_ME FN cos_ge_F.
